@@ -57,6 +57,7 @@ type busCase struct {
 	nextObs  int
 	maxDepth int
 	ptimeout bool
+	otel     *otelProbe
 	calls    int
 	stores   map[int]*recStore
 	faults   []int
@@ -550,6 +551,14 @@ func busDomain(lines []string) []string {
 					cs.ptimeout = true
 				case w == "obs":
 					opts = append(opts, eb.WithObservability(recObs{cs}))
+				case w == "otel":
+					o, err := newOtelProbe()
+					if err != nil {
+						cs.out = append(cs.out, "!otel "+err.Error())
+					} else {
+						cs.otel = o
+						opts = append(opts, eb.WithObservability(o.obs))
+					}
 				}
 			}
 		case "maxdepth":
@@ -594,6 +603,10 @@ func busDomain(lines []string) []string {
 	if np > 0 {
 		cs.emit("!pending %d", np)
 		cs.drain() // do not leak parked goroutines into the next case
+	}
+	if cs.otel != nil {
+		cs.bus.Wait()
+		cs.emit("%s", cs.otel.summary())
 	}
 	return cs.out
 }
